@@ -26,8 +26,12 @@ def make_obj(spec):
         o[0, 0].add(np.array([(spec['tok'],)], dtype=[('x', '<i8')]))
     else:
         raise ValueError(c)
-    for k, t in spec.get('mds', []):
-        o.metadata = emdfile.Metadata(name=k, data={'tok': t})
+    for ent in spec.get('mds', []):
+        k, t = ent[0], ent[1]
+        md = emdfile.Metadata(name=k, data={'tok': t})
+        o.metadata = md
+        if len(ent) > 2:
+            md.name = ent[2]          # renamed after it was attached: key != name
     return o
 
 
@@ -358,7 +362,7 @@ class Em:
         return f'(H5 {self.obj(s[1])})'
 
     def rnode(self, t):
-        mds = coqlist([f"({self.I.s(k)}, {coqZ(v)})" for k, v in t['mds']])
+        mds = coqlist([f"({self.I.s(m[0])}, {coqZ(m[1])})" for m in t['mds']])
         c = COQCLS.get(t['cls'])
         if c is None:
             c = 'CNode'
